@@ -144,8 +144,32 @@ def case_lqr(H, n, mdim, Tn, ltv, with_c1, nominal, second_solve, mpc=False):
         else:
             H.engine_error(name, e)
 
+    def replay_illcond(model_):
+        # positive-definite but ill-conditioned input cost (cond(Quu) ~ 1e6, inside the documented range): a truncating
+        # pseudo-inverse in the backward pass silently returns a non-minimiser
+        nn_, mm_, TT = 2, 2, 2
+        torch.manual_seed(8)
+        A, B = 0.5 * torch.randn(1, nn_, nn_, dtype=DT), 0.5 * torch.randn(1, nn_, mm_, dtype=DT)
+        Q = torch.block_diag(torch.eye(nn_, dtype=DT), torch.diag(torch.tensor([1.0, 1e-6], dtype=DT))).view(1, 1, 4, 4).repeat(1, TT, 1, 1)
+        p = torch.randn(1, TT, nn_ + mm_, dtype=DT)
+        x0 = torch.randn(1, nn_, dtype=DT)
+        sys_ = pp.module.LTI(A, B, torch.zeros(1, nn_, nn_, dtype=DT), torch.zeros(1, nn_, mm_, dtype=DT))
+        x, u, cost = pp.module.LQR(sys_, Q, p, TT)(x0, 1)
+        uf = u[0].detach().clone().requires_grad_(True)
+        xs, c = [x0[0]], 0
+        for t in range(TT):
+            tau = torch.cat([xs[-1], uf[t]])
+            c = c + 0.5 * tau @ Q[0, t] @ tau + p[0, t] @ tau
+            xs.append(A[0] @ xs[-1] + B[0] @ uf[t])
+        g = torch.autograd.grad(c, uf)[0]
+        return g.abs().max().item() > 1e-6 * (1 + abs(c.item())), 'gradient of the true LQ cost at the returned inputs is %.3g for a positive-definite Q with cond(Quu) = 1e6' % g.abs().max().item()
+
     for ctx, (xt, ut, ct, As, Bs, c1s, x0s, ps, Qts, m, tens) in run_paths(H, name, prog, max_paths=8, raised=on_raise):
         selftest(H, ctx, m, [(xt, tens[0]), (ut, tens[1]), (ct, tens[2])], name)
+        from symx.engine import _nonzero_tol
+        for call in getattr(ctx, 'pinv_calls', []):
+            if any(_nonzero_tol(call.get(kk)) for kk in ('atol', 'rtol')) or any(_nonzero_tol(a_) for a_ in (call.get('extra') or [])[:2]):
+                H.prove(name + '/linear-solves-without-truncation', [], z3.BoolVal(False), replay=replay_illcond, key='C14/LQR/conditioning')
         hyp = H.hyps_of(ctx)
         A = [T.mat(As[(t if ltv else 0) * n * n:((t if ltv else 0) + 1) * n * n], n, n) for t in range(Tn)]
         B = [T.mat(Bs[(t if ltv else 0) * n * mdim:((t if ltv else 0) + 1) * n * mdim], n, mdim) for t in range(Tn)]
